@@ -14,11 +14,11 @@ RowBad(t, row) ==
     LET ni == Len(t.iw)
         iv == SubSeq(row, 1, ni)
         ov == SubSeq(row, ni + 1, Len(row))
-        exp == CombRef(t.kind, t.c, iv, t.iw, t.ow)
+        exp == CombRefA(t.kind, t.c, iv, t.iw, t.ow)
     IN  \/ Len(exp) # Len(ov)
         \/ \E k \in 1..Len(ov) : exp[k] # DC /\ exp[k] # ov[k]
 
-Expected(t, row) == CombRef(t.kind, t.c, SubSeq(row, 1, Len(t.iw)), t.iw, t.ow)
+Expected(t, row) == CombRefA(t.kind, t.c, SubSeq(row, 1, Len(t.iw)), t.iw, t.ow)
 
 Constrained(t, row) == \E k \in 1..Len(t.ow) : Expected(t, row)[k] # DC
 
@@ -27,7 +27,7 @@ SameOut(x, y, w) == IF x = WDC \/ y = WDC THEN x = y ELSE Norm(x, w) = Norm(y, w
 RefsAgreeWith(t, a, b) == Len(a) = Len(b) /\ \A k \in 1..Len(a) : SameOut(a[k], b[k], t.ow[k])
 RefsAgree(t, row) ==
     LET iv == SubSeq(row, 1, Len(t.iw))
-    IN  RefsAgreeWith(t, AsWide(CombRef(t.kind, t.c, iv, t.iw, t.ow), t.ow), WideOfInts(t.kind, t.c, iv, t.iw, t.ow))
+    IN  RefsAgreeWith(t, AsWide(CombRefA(t.kind, t.c, iv, t.iw, t.ow), t.ow), WideOfInts(t.kind, t.c, iv, t.iw, t.ow))
 
 RECURSIVE Prod(_)
 Prod(ws) == IF ws = <<>> THEN 1 ELSE Pow2(Head(ws)) * Prod(Tail(ws))
